@@ -775,3 +775,44 @@ func ruleLongHeldLockAcquisitions(c *Ctx, rule string) {
 			fmt.Sprintf("%d call site(s) wait for %s, which may be held for an unbounded time (%s executes under it); the recorded, unavoidable sites are frozen (%d allowed here) — an additional wait is a new way to wedge the connection", counts[key], lk, long[lk], want), pos[key]...)
 	}
 }
+
+// ruleRegistrationRefusalHonoured: registerHandler refuses (returns an error, registers nothing) once the connection
+// has failed. A caller that goes on regardless — writes its request, or reports success — waits for a reply on a
+// channel nobody will ever close. So from every call of registerHandler, each path to a transport write or to a
+// successful return passes an edge on which the returned error is known to be nil.
+func ruleRegistrationRefusalHonoured(c *Ctx, rule string) {
+	p := c.p
+	reg := p.MustFn("client.RpcMultiplexer.registerHandler")
+	n := 0
+	for _, cs := range p.Callers(reg) {
+		call, ok := cs.instr.(*ssa.Call)
+		if !ok {
+			c.check(rule, "registerHandler←"+p.cname(cs.caller)+":result-used", false, "registerHandler is started with go / defer: its refusal cannot be seen", p.ipos(cs.instr))
+			continue
+		}
+		n++
+		f := cs.caller
+		errPath := p.lpath(call)
+		isOnward := func(i ssa.Instruction) bool {
+			switch x := i.(type) {
+			case *ssa.Return:
+				vs := retVals(x)
+				return len(vs) > 0 && isNilConst(vs[len(vs)-1])
+			case *ssa.Call:
+				for _, w := range p.transportOps(f, "Write", false) {
+					if w == x {
+						return true
+					}
+				}
+			}
+			return false
+		}
+		hit := p.pathAvoiding(f, call, isOnward, func(ssa.Instruction) bool { return false }, p.edgeImplies(f, atom("isnil", errPath)))
+		where := ""
+		if hit != nil {
+			where = p.ipos(hit)
+		}
+		c.check(rule, "registerHandler←"+p.cname(f)+":refusal-honoured", hit == nil, "no write and no successful return is reachable from the registration without passing `err == nil` (reached: "+where+")", p.ipos(call))
+	}
+	c.floor(rule, "call sites of registerHandler", n, 2)
+}
